@@ -32,4 +32,5 @@ def run(ctx):
     ctx.children(b, 16, run='TestC01$', timeout=3000, crash_key='C01/crash', env={'VERIF_C01_ROUNDS': '3' if not ctx.thorough else '6'})
     ctx.children(b, 8, run='TestC01DroppedBuilder', timeout=3000, crash_key='C01/crash')
     ctx.children(b, 1, run='TestC01Library', timeout=300, crash_key='C01/crash')
+    ctx.children(b, 2 if not ctx.thorough else 8, run='TestC01Goroutines', timeout=600, crash_key='C01/crash', what='TestC01Goroutines', env={'VERIF_C01_PER': '4000' if not ctx.thorough else '60000'})
     ctx.children(b, 1, run='TestC01Generics', timeout=300, crash_key='C01/crash')
